@@ -39,6 +39,7 @@ var verifNative struct {
 	dirs     []string
 	monitors map[string]bool
 	faultOpen int // > 0: the n-th following os.Open of the code under test fails
+	faultRead int // likewise for ioutil.ReadFile
 	allocBase, allocBudget uint64
 	monitorHits []string
 	frozen   []interface{}
@@ -54,6 +55,7 @@ func verifReset(vec []int64, tier int) {
 	verifNative.monitors = map[string]bool{}
 	verifNative.monitorHits = nil
 	verifNative.faultOpen = 0
+	verifNative.faultRead = 0
 	verifNative.allocBudget = 0
 	verifSchedReset()
 }
@@ -150,6 +152,10 @@ func VerifStepBudget(n int) {}
 // VerifFaultOpen injects one I/O fault: the n-th os.Open (n >= 1) that the
 // code under test performs from now on fails with "too many open files".
 func VerifFaultOpen(n int) { verifNative.faultOpen = n }
+
+// VerifFaultReadFile: the n-th ioutil.ReadFile (n >= 1) that the code under
+// test performs from now on fails with an input/output error.
+func VerifFaultReadFile(n int) { verifNative.faultRead = n }
 
 // VerifAllocBudget declares that the code running until VerifAllocEnd may
 // allocate at most n bytes in total ("allocates without bound", C18).  The
